@@ -13,6 +13,7 @@ import ast
 from ..model import walk_no_nested, norm, call_name, is_self_attr
 from ..facts import FuncFacts, facts_at
 from ..report import Ctx, AnalysisError
+from .. import relrules as R
 
 RM = "pydcop.reparation.removal"
 RP = "pydcop.reparation"
@@ -151,6 +152,10 @@ def check(ctx: Ctx):
         and "v_agt = fixed_neighbors[v]" in t and f"arg_name = {a_bv}[v, v_agt].name" in t and f"cost_v += kwargs[arg_name] * {a_comm}({a_cand}, v, v_agt)" in t \
         and "candidate_cost += kwargs[locally_hosted] * cost_v" in t and "for v_agt in candidate_neighbors[v]" in t
     ctx.check(ok, "R-SUMS", "communication cost = x_local * (sum over fixed neighbours + sum over candidate neighbours' possible hosts)", comm, cc, "")
+    n_acc = 0
+    for f_ in (hosted, capa, hcost, comm):
+        n_acc += R.check_partial_sums(ctx, f_, f_.node, "R-SUMS")
+    ctx.check(n_acc >= 1, "R-SUMS", "partial sums inside the constraint factories enumerated", comm, cc, "the per-neighbour partial sum of the communication constraint was not recognised")
     t = norm(comm.node)
     ok = f"scope = [{a_bv}[{a_cand}, {a_agt}]]" in t and f"scope.append({a_bv}[v, v_agt])" in t
     ctx.check(ok, "R-SUMS", "communication constraint scope = own variable + every (candidate neighbour, possible host) variable", comm, comm.node, "")
@@ -167,6 +172,7 @@ def _enclosing_stmt(func_node, node):
 _R = "pydcop/reparation/removal.py"
 _P = "pydcop/reparation/__init__.py"
 VARIANTS = [
+    ("comm_partial_sum_hoisted", "pydcop/reparation/__init__.py", "        for v in candidate_neighbors:\n            cost_v = 0.0\n            for v_agt in candidate_neighbors[v]:", "        cost_v = 0.0\n        for v in candidate_neighbors:\n            for v_agt in candidate_neighbors[v]:", "break", "R-SUMS"),
     ("candidates_keep_departed", _R, "    candidate_agents = list(set(candidate_agents).difference(set(departed)))\n", "    candidate_agents = list(set(candidate_agents))\n", "break", "R-FILTER"),
     ("info_keep_departed", _R, "    candidate_agents = list(discovery.replica_agents(orphan).difference(\n        departed))", "    candidate_agents = list(discovery.replica_agents(orphan))", "break", "R-FILTER"),
     ("neighbor_candidates_keep_departed", _R, "                list(discovery.replica_agents(n).difference(departed))", "                list(discovery.replica_agents(n))", "break", "R-FILTER"),
